@@ -5,6 +5,7 @@
 verus! {
 
 // ---- shims local to this unit (assumptions; listed in evidence) ----
+pub tracked struct PanicCtx { pub ghost asked: bool, pub ghost value: bool }
 pub struct Thread { pub _p: () }
 pub struct Waker { pub id: Ghost<int> }
 pub type WakerRef = Waker;
@@ -34,8 +35,11 @@ pub mod thread {
             !old(g).q.nonblocking,                            // OBL C09 nonblocking
         ensures *final(g) == *old(g),
     { unimplemented!() }
+    /// `thread::panicking()`: the ghost context records that the question was asked and what the answer was
     #[verifier::external_body]
-    pub fn panicking() -> bool { unimplemented!() }
+    pub fn panicking(Tracked(pz): Tracked<&mut PanicCtx>) -> (r: bool)
+        ensures final(pz).asked, final(pz).value == r,
+    { unimplemented!() }
 }
 pub mod task {
     use super::*;
